@@ -166,7 +166,7 @@ func hyperShortcutPersist(c *Ctx, rule string) {
 					}
 				}
 			}
-			c.Check(ok, rule, fmt.Sprintf("%s:shortcut@%s", funcName(fn), p.pos(at.Pos())), at.Pos(), "the batch persisted is the one holding the new shortcut", why)
+			c.Check(ok, rule, ordinalLabel(funcName(fn)+":shortcut"), at.Pos(), "the batch persisted is the one holding the new shortcut", why)
 		}
 	}
 	if n == 0 {
@@ -245,4 +245,281 @@ func hyperInsertSortedDuplicates(c *Ctx, rule string) {
 	if n == 0 {
 		c.Fail(rule, "hyper:sorted-inserter", 0, "sorted in-place inserter of the hyper leaves list not found")
 	}
+}
+
+// ---- H8: a shortcut stores (key, value) in that order; the leaf hash takes the same value -----
+func hyperShortcutArgs(c *Ctx, rule string) {
+	p := c.P
+	n := 0
+	for _, tv := range hyperTraversals(p) {
+		fn := tv.fn
+		eachInstr(fn, func(in ssa.Instruction) {
+			cc := callCommon(in)
+			if cc == nil || cc.StaticCallee() == nil {
+				return
+			}
+			f := cc.StaticCallee()
+			if f.Signature.Results().Len() != 1 || !namedIs(f.Signature.Results().At(0).Type(), pkgHyper, "operation") {
+				return
+			}
+			var bytesArgs []int
+			nb, nslot := 0, 0
+			for i := 0; i < f.Signature.Params().Len(); i++ {
+				t := f.Signature.Params().At(i).Type()
+				switch {
+				case namedIs(t, pkgHyper, "batchNode"):
+					nb++
+				case isBasicKind(t, types.Int8):
+					nslot++
+				case isByteSlice(t):
+					bytesArgs = append(bytesArgs, i)
+				}
+			}
+			if !(nb == 1 && nslot == 1 && len(bytesArgs) == 2) {
+				return
+			}
+			n++
+			k, v := p.TermOf(cc.Args[bytesArgs[0]]), p.TermOf(cc.Args[bytesArgs[1]])
+			// (key, value): fields Index/Value of one leaf, or the (key, value) pair read from the batch
+			ok := k.IsField("Index", nil) && v.IsField("Value", nil) && k.Strip().Args[0].String() == v.Strip().Args[0].String()
+			if !ok {
+				// pair read from a batch: extract #0 / #1 of the same call
+				ok = k.Op == "extract" && v.Op == "extract" && k.Idx == 0 && v.Idx == 1 && k.Args[0].V == v.Args[0].V
+			}
+			c.Check(ok, rule, ordinalLabel(funcName(fn)+":shortcut-kv"), in.Pos(), "shortcut written as (key, value) of one leaf", "the shortcut leaf is written with key "+k.String()+" and value "+v.String()+": key and value must be the Index and the Value of the same leaf, in that order (both are byte slices: swapping them persists a leaf that later push-downs read back under the wrong key)")
+		})
+	}
+	if n == 0 {
+		c.Fail(rule, "hyper:shortcut-kv", 0, "no shortcut-leaf creation found")
+	}
+}
+
+// ---- H9: pushing a shortcut leaf down clears its slot and both child slots -----------------------
+//
+// A shortcut leaf occupies three slots of its batch (hash, key, value). When it is pushed down the
+// slot becomes an inner node; the two other slots must be cleared, or the key/value bytes left in
+// them are later read as child hashes. Single and bulk insertion must do the same.
+func hyperPushDownResets(c *Ctx, rule string) {
+	p := c.P
+	n := 0
+	for _, tv := range hyperTraversals(p) {
+		tv := tv
+		fn := tv.fn
+		isIdx := func(t *Term) bool { return t.IsParam(fn, tv.idxI) }
+		for _, b := range fn.Blocks {
+			pushDown := false
+			reinserts := false
+			var resets []*Term
+			var at ssa.Instruction
+			for _, in := range b.Instrs {
+				if c0 := callCommon(in); c0 != nil && isInPlaceMutator(p, c0.StaticCallee()) {
+					reinserts = true // the stored leaf is put back into the list of leaves to insert
+				}
+				cc := callCommon(in)
+				if cc == nil || cc.StaticCallee() == nil || cc.StaticCallee().Signature.Recv() == nil || !namedIs(cc.StaticCallee().Signature.Recv().Type(), pkgHyper, "batchNode") {
+					continue
+				}
+				f := cc.StaticCallee()
+				// reads the (key, value) of a leaf slot: two byte-slice results
+				if f.Signature.Results().Len() == 2 && isByteSlice(f.Signature.Results().At(0).Type()) && isByteSlice(f.Signature.Results().At(1).Type()) {
+					pushDown = true
+					at = in
+				}
+				// clears a slot: no result, one int8 parameter
+				if f.Signature.Results().Len() == 0 && f.Signature.Params().Len() == 1 && isBasicKind(f.Signature.Params().At(0).Type(), types.Int8) {
+					resets = append(resets, p.TermOf(cc.Args[1]))
+				}
+			}
+			if !pushDown || !reinserts {
+				continue // reading a leaf for a proof is not a push-down
+			}
+			n++
+			own, c1, c2 := false, false, false
+			for _, r := range resets {
+				switch {
+				case isIdx(r):
+					own = true
+				case isChildIdx(r, isIdx, "1"):
+					c1 = true
+				case isChildIdx(r, isIdx, "2"):
+					c2 = true
+				}
+			}
+			c.Check(own && c1 && c2, rule, ordinalLabel(funcName(fn)+":push-down"), at.Pos(), "slot i, 2i+1 and 2i+2 cleared when the shortcut is pushed down", fmt.Sprintf("pushing the shortcut leaf down clears slot i=%v, 2i+1=%v, 2i+2=%v: the key/value bytes left in an uncleared slot are read as a child hash by the traversal that follows", own, c1, c2))
+		}
+	}
+	if n == 0 {
+		c.Fail(rule, "hyper:push-down-resets", 0, "no push-down of a shortcut leaf found")
+	}
+}
+
+// ordinalLabel: constructs that occur several times in one function are told apart by their order
+// of appearance, not by their line (a construct key must survive edits elsewhere in the file).
+var ordinalSeen = map[string]int{}
+
+func ordinalLabel(base string) string {
+	ordinalSeen[base]++
+	return fmt.Sprintf("%s#%d", base, ordinalSeen[base])
+}
+
+func resetOrdinals() { ordinalSeen = map[string]int{} }
+
+// ---- H10: one ordering convention — a key equal to the right child's index belongs to the right ---
+//
+// Every hyper traversal divides its keys at Right(pos).Index. Insertion, search, verification and
+// the rebuild must divide the same way (`key < right.Index` goes left, everything else right), or a
+// key that equals a split point is stored on one side and looked for / rebuilt on the other.
+// (a) single-key traversals branch on bytes.Compare(key, right.Index) < 0: Left under it, Right under
+// its negation; (b) list splits look for the smallest i with Compare(l[i], right.Index) >= 0.
+func hyperOrderingConvention(c *Ctx, rule string) {
+	p := c.P
+	sp := p.SSAPkg[modPkg(pkgHyper)]
+	isCmpLT0 := func(a *Term) bool {
+		// LT(call bytes.Compare(x, y), 0)
+		return a.Op == "LT" && a.Args[1].Op == "const" && a.Args[1].Name == "0" && isBoolCallTo("bytes", "Compare")(a.Args[0])
+	}
+	nA, nB := 0, 0
+	type posTrav struct {
+		fn   *ssa.Function
+		posI int
+	}
+	var travs []posTrav
+	for _, fn := range p.ModFuncs {
+		if fn.Pkg != sp || fn.Parent() == nil || p.isTestScaffold(fn) {
+			continue
+		}
+		for i, par := range fn.Params {
+			if namedIs(par.Type(), pkgHyper, "position") {
+				travs = append(travs, posTrav{fn, i})
+				break
+			}
+		}
+	}
+	for _, tv := range travs {
+		tv := tv
+		fn := tv.fn
+		isPos := func(t *Term) bool { return t.IsParam(fn, tv.posI) }
+		eachInstr(fn, func(in ssa.Instruction) {
+			cc := callCommon(in)
+			if cc == nil {
+				return
+			}
+			var callee *ssa.Function
+			if f := cc.StaticCallee(); f != nil {
+				callee = f
+			} else if !cc.IsInvoke() {
+				if cl := p.TermOf(cc.Value).Resolve("closure"); cl != nil {
+					callee = cl.Fn
+				}
+			}
+			// the descent: a call of this closure, or of a sibling closure that comes back to it
+			// (traverse ↔ traverseBatch); a sibling that never comes back (discarding a branch) is not one
+			if callee == nil || callee != fn && !(outermost(callee) == outermost(fn) && closureCalls(p, callee, fn)) {
+				return
+			}
+			ci := -1
+			for i, par := range callee.Params {
+				if namedIs(par.Type(), pkgHyper, "position") {
+					ci = i
+					break
+				}
+			}
+			if ci < 0 || ci >= len(cc.Args) {
+				return
+			}
+			pos := p.TermOf(cc.Args[ci])
+			side := ""
+			if pos.Op == "call" && pos.Fn != nil && len(pos.Args) == 1 && isPos(pos.Args[0]) {
+				side = pos.Fn.Name()
+			}
+			if side != "Left" && side != "Right" {
+				return
+			}
+			// only traversals that decide by comparing a single key
+			var cmp *Cond
+			for _, k := range p.CondsAt(in.Block()) {
+				k := k
+				if k.Atom.Has(isBoolCallTo("bytes", "Compare")) {
+					cmp = &k
+				}
+			}
+			if cmp == nil {
+				return
+			}
+			nA++
+			ok := isCmpLT0(cmp.Atom) && cmp.Atom.Args[0].Args[1].IsField("Index", func(b *Term) bool {
+				return b.Op == "call" && b.Fn != nil && b.Fn.Name() == "Right"
+			}) && (side == "Left") == cmp.Pol
+			c.Check(ok, rule, ordinalLabel(funcName(fn)+":descent-"+side), in.Pos(), "Left under key < right.Index, Right otherwise", "the descent to "+side+" is taken under "+cmp.String()+": every traversal must send a key that equals Right(pos).Index to the right (go left exactly when Compare(key, right.Index) < 0), or prover, verifier and inserter disagree on keys that sit on a split point")
+		})
+	}
+	for _, fn := range p.ModFuncs {
+		if fn.Pkg != sp || !p.Production(fn) {
+			continue
+		}
+		fn := fn
+		eachInstr(fn, func(in ssa.Instruction) {
+			call, ok := in.(*ssa.Call)
+			if !ok || call.Call.StaticCallee() == nil || call.Call.StaticCallee().Name() != "Search" || call.Call.StaticCallee().Pkg == nil || call.Call.StaticCallee().Pkg.Pkg.Path() != "sort" || call.Referrers() == nil {
+				return
+			}
+			lo, hi := false, false
+			for _, r := range *call.Referrers() {
+				if sl, isS := r.(*ssa.Slice); isS {
+					if sl.High == ssa.Value(call) && sl.Low == nil {
+						lo = true
+					}
+					if sl.Low == ssa.Value(call) && sl.High == nil {
+						hi = true
+					}
+				}
+			}
+			if !lo || !hi {
+				return // not a split (e.g. the insertion point of the sorted inserter)
+			}
+			mc, isMC := call.Call.Args[1].(*ssa.MakeClosure)
+			if !isMC {
+				return
+			}
+			nB++
+			pred := mc.Fn.(*ssa.Function)
+			okB := false
+			var got string
+			for _, b := range pred.Blocks {
+				if len(b.Instrs) == 0 {
+					continue
+				}
+				if ret, isR := b.Instrs[len(b.Instrs)-1].(*ssa.Return); isR && len(ret.Results) == 1 {
+					cd := p.condOf(ret.Results[0], true)
+					got = cd.String()
+					okB = isCmpLT0(cd.Atom) && !cd.Pol
+				}
+			}
+			c.Check(okB, rule, ordinalLabel(funcName(fn)+":split"), in.Pos(), "split at the smallest i with l[i] >= right.Index", "the list is split with the predicate "+got+": the halves must be [l[i] < key) and [l[i] >= key) (predicate Compare(l[i], key) >= 0) like every other traversal, or an element equal to the split point goes to the other side than the one it was inserted on")
+		})
+	}
+	if nA < 4 || nB < 2 {
+		c.Fail(rule, "hyper:ordering-convention", 0, fmt.Sprintf("only %d single-key descents and %d list splits found", nA, nB))
+	}
+}
+
+// closureCalls: closure a contains a call of closure b (through the variable it is bound to).
+func closureCalls(p *Program, a, b *ssa.Function) bool {
+	found := false
+	eachInstr(a, func(in ssa.Instruction) {
+		cc := callCommon(in)
+		if cc == nil || cc.IsInvoke() || found {
+			return
+		}
+		if cc.StaticCallee() == b {
+			found = true
+			return
+		}
+		if cc.StaticCallee() == nil {
+			if cl := p.TermOf(cc.Value).Resolve("closure"); cl != nil && cl.Fn == b {
+				found = true
+			}
+		}
+	})
+	return found
 }
